@@ -102,15 +102,41 @@ def gen_forms():
     # output stream
     m = need(r"eDefaultBufferSize\s*=\s*(\d+)u?", osh, "XalanOutputStream::eDefaultBufferSize")
     facts["ostream_bufsize"] = int(m.group(1))
+    # The stream exists in two variants (FormsDefs.ostep_k): the original one, and the one repaired for K05e /
+    # C08 K-C08-2 in which a flush done because more data is coming keeps a trailing high surrogate back.  Both
+    # are recognised exactly (anything else fails closed); GenForms.stream_keeps_high_surrogate selects the model.
     wb = re.sub(r"\s+", "", function_body(osc, r"XalanOutputStream::write\s*\(\s*const\s+XalanDOMChar\s*\*\s*theBuffer\s*,[^)]*\)\s*\{", "XalanOutputStream::write(wide)"))
-    need(re.escape("if(theBufferLength+m_buffer.size()>m_bufferSize){flushBuffer();}if(theBufferLength>m_bufferSize){"), wb,
-         "XalanOutputStream::write(wide): flush when the data does not fit, direct write when larger than the buffer")
-    # write(XalanDOMChar): flush exactly when the buffer is full, then append (FormsDefs.ostep, OChar).  A repair
-    # that keeps a trailing high surrogate in the buffer (finding K05e) must come with an updated model.
+    wb = wb.replace("assert(theBuffer!=0);", "")
     wc = re.sub(r"\s+", "", function_body(osh, r"write\s*\(\s*XalanDOMChar\s+theChar\s*\)\s*\{", "XalanOutputStream::write(XalanDOMChar)"))
     wc = wc.replace("assert(m_bufferSize>0);", "")
-    if wc != "{if(m_buffer.size()==m_bufferSize){flushBuffer();}m_buffer.push_back(theChar);}":
-        raise AnchorError("XalanOutputStream::write(XalanDOMChar) is no longer 'flush when full, then push_back' (model: FormsDefs.ostep OChar)")
+    tail = "else{m_buffer.insert(m_buffer.end(),theBuffer,theBuffer+theBufferLength);}}"
+    wb_orig = ("{if(theBufferLength+m_buffer.size()>m_bufferSize){flushBuffer();}if(theBufferLength>m_bufferSize){"
+               "assert(m_buffer.empty()==true);doWrite(theBuffer,theBufferLength);}" + tail)
+    wb_fixed = ("{if(theBufferLength+m_buffer.size()>m_bufferSize){flushBufferForMore();}if(theBufferLength>m_bufferSize){"
+                "assert(m_buffer.size()<=1);if(m_buffer.empty()==false){m_buffer.push_back(*theBuffer);++theBuffer;--theBufferLength;flushBuffer();}"
+                "if(theBufferLength!=0&&isHighSurrogate(theBuffer[theBufferLength-1])==true){--theBufferLength;"
+                "if(theBufferLength!=0){doWrite(theBuffer,theBufferLength);}m_buffer.push_back(theBuffer[theBufferLength]);}"
+                "elseif(theBufferLength!=0){doWrite(theBuffer,theBufferLength);}}" + tail)
+    wc_orig = "{if(m_buffer.size()==m_bufferSize){flushBuffer();}m_buffer.push_back(theChar);}"
+    wc_fixed = "{if(m_buffer.size()>=m_bufferSize){flushBufferForMore();}m_buffer.push_back(theChar);}"
+    if wb == wb_orig and wc == wc_orig:
+        if "flushBufferForMore" in re.sub(r"\s+", "", osc):
+            raise AnchorError("XalanOutputStream: flushBufferForMore exists but the write functions are the original ones")
+        facts["stream_keeps_high_surrogate"] = False
+    elif wb == wb_fixed and wc == wc_fixed:
+        ffm = re.sub(r"\s+", "", function_body(osc, r"XalanOutputStream::flushBufferForMore\s*\(\s*\)\s*\{", "XalanOutputStream::flushBufferForMore"))
+        if ffm != ("{if(m_buffer.empty()==false&&isHighSurrogate(m_buffer.back())==true){constXalanDOMChartheHighSurrogate=m_buffer.back();"
+                   "m_buffer.pop_back();flushBuffer();m_buffer.push_back(theHighSurrogate);}else{flushBuffer();}}"):
+            raise AnchorError("XalanOutputStream::flushBufferForMore is not 'keep a trailing high surrogate, flush the rest' (model: FormsDefs.flush_for_more)")
+        need(r"isHighSurrogate\(XalanDOMChartheChar\)\{return0xD800u?<=theChar&&theChar<=0xDBFFu?;\}", re.sub(r"\s+", "", osc),
+             "isHighSurrogate = 0xD800 <= c <= 0xDBFF (model: FormsDefs.is_high_surrogate)")
+        facts["stream_keeps_high_surrogate"] = True
+    else:
+        raise AnchorError("XalanOutputStream::write(XalanDOMChar) / write(const XalanDOMChar*, n): neither the original nor the repaired "
+                          "(flushBufferForMore) variant (model: FormsDefs.ostep_k)")
+    fb = re.sub(r"\s+", "", function_body(osc, r"XalanOutputStream::flushBuffer\s*\(\s*\)\s*\{", "XalanOutputStream::flushBuffer"))
+    need(r"^\{if\(m_buffer\.empty\(\)==false\)\{CollectionClearGuard<BufferType>theGuard\(m_buffer\);.*?doWrite\(&\*m_buffer\.begin\(\),size_type\(m_buffer\.size\(\)\)\);\}", fb,
+         "flushBuffer: a non-empty buffer is written by one doWrite and cleared (model: FormsDefs.flush_buffer)")
     fl = re.sub(r"\s+", "", function_body(osh, r"\n\s*flush\s*\(\s*\)\s*\{", "XalanOutputStream::flush()"))
     if fl != "{flushBuffer();doFlush();}":
         raise AnchorError("XalanOutputStream::flush() is no longer flushBuffer(); doFlush(); (model: FormsDefs.ostep OFlush)")
@@ -118,7 +144,8 @@ def gen_forms():
             "   XercesDocumentWrapper.cpp, XalanOutputStream.hpp - do not edit *)\n"
             "From Coq Require Import NArith.\n")
     for k in ("flush_at_start", "flush_at_end", "flush_at_comment", "flush_at_pi", "flush_at_ignws", "accumulate_text",
-              "element_before_attrs", "nsdecls_first", "wrap_attrs_in_start", "wrap_element_before_attrs", "wrap_links_doctype"):
+              "element_before_attrs", "nsdecls_first", "wrap_attrs_in_start", "wrap_element_before_attrs", "wrap_links_doctype",
+              "stream_keeps_high_surrogate"):
         text += "Definition %s : bool := %s.\n" % (k, _b(facts[k]))
     for k in ("first_index", "wrap_doc_index", "wrap_first_index", "ostream_bufsize"):
         text += "Definition %s : N := %d%%N.\n" % (k, facts[k])
